@@ -34,6 +34,61 @@ type followCase struct {
 	WithInclude bool       `json:"withInclude,omitempty"` // the transfer also sets an include list (that selects nothing by itself)
 	// FailTarget: looking this path up fails with an I/O error (not "does not exist")
 	FailTarget string `json:"failTarget,omitempty"`
+	// Model: the case was enumerated by TLC from spec/ResolverMC.tla; the result of the ALGORITHM model's run (no transfer follows)
+	Model *followModel `json:"model,omitempty"`
+}
+
+type followModel struct {
+	Name   string   `json:"name"`
+	Result []string `json:"result"`
+	IsNil  bool     `json:"isNil"`
+}
+
+// followModelCases reads the (tree, request list) cases TLC wrote for ResolverMC; every `stride`-th file is taken.
+func followModelCases(gen string, stride int) ([]followCase, error) {
+	files, _ := filepath.Glob(filepath.Join(gen, "followcase_*.ndjson"))
+	sort.Strings(files)
+	var out []followCase
+	for k, f := range files {
+		if k%stride != 0 {
+			continue
+		}
+		b, err := os.ReadFile(f)
+		if err != nil {
+			return nil, err
+		}
+		var mc struct {
+			Name string `json:"name"`
+			Tree []struct {
+				P  string `json:"p"`
+				T  string `json:"t"`
+				Ln string `json:"ln"`
+			} `json:"tree"`
+			Reqs   []string `json:"reqs"`
+			Result []string `json:"result"`
+			IsNil  bool     `json:"isNil"`
+		}
+		if err := json.Unmarshal(bytes.TrimSpace(b), &mc); err != nil {
+			return nil, err
+		}
+		fc := followCase{Reqs: mc.Reqs, Model: &followModel{Name: mc.Name, Result: mc.Result, IsNil: mc.IsNil}}
+		if fc.Model.Result == nil {
+			fc.Model.Result = []string{}
+		}
+		for i, e := range mc.Tree {
+			switch e.T {
+			case "dir":
+				fc.Tree = append(fc.Tree, model.Entry{Path: e.P, Type: "dir", Perm: 0755, Mtime: 1400000000000000000 + int64(i)})
+			case "symlink":
+				fc.Tree = append(fc.Tree, model.Entry{Path: e.P, Type: "symlink", Perm: 0777, Link: e.Ln, Mtime: 1400000000000000000 + int64(i)})
+			default:
+				fc.Tree = append(fc.Tree, model.Entry{Path: e.P, Type: "file", Perm: 0644, Mtime: 1400000000000000000 + int64(i), Data: []byte("x"), Size: 1, Content: model.ContentID([]byte("x"))})
+			}
+		}
+		fc.Tree.Sort()
+		out = append(out, fc)
+	}
+	return out, nil
 }
 
 // lookupFaultFS fails every Walk of one target with EIO.
@@ -224,7 +279,14 @@ func followChild(args []string) {
 			ev["errText"] = trunc(r.err.Error())
 		}
 		ev["lookupFault"] = fc.FailTarget != "" && lf != nil && lf.hit
-		if !hang && r.err == nil && fc.FailTarget == "" {
+		if fc.Model != nil {
+			mr := [][][]int{}
+			for _, x := range fc.Model.Result {
+				mr = append(mr, comps(x))
+			}
+			ev["model"] = vt.Ev{"result": mr, "isNil": fc.Model.IsNil}
+		}
+		if !hang && r.err == nil && fc.FailTarget == "" && fc.Model == nil {
 			// end to end: a transfer with these follow-paths
 			fo := &fsutil.FilterOpt{FollowPaths: fc.Reqs}
 			if fc.WithInclude && r.l != nil {
@@ -379,6 +441,19 @@ func Follow(c *Ctx) error {
 			}
 		}
 		cases = append(cases, fixed...)
+		// the (tree, request list) cases TLC enumerated from spec/ResolverMC.tla with the algorithm model's result
+		if gen := os.Getenv("VERIF_GEN_DIR"); gen != "" {
+			stride := 6
+			if c.Thorough() {
+				stride = 1
+			}
+			mcs, err := followModelCases(gen, stride)
+			if err != nil {
+				return err
+			}
+			cases = append(cases, mcs...)
+			c.Stats.Note(fmt.Sprintf("%d (tree, request list) cases enumerated by TLC from ResolverMC (every %d-th), each with the algorithm model's result", len(mcs), stride))
+		}
 		n := 1500
 		if c.Thorough() {
 			n = 8000
